@@ -404,6 +404,12 @@ impl Allocator for Arena {
 
   #[inline]
   unsafe fn dealloc(&self, offset: u32, size: u32) -> bool {
+    #[cfg(al8n_rarena_verif)]
+    crate::verif::api_event(crate::verif::ApiEvent::Dealloc {
+      sync: false,
+      offset,
+      size,
+    });
     // first try to deallocate the memory back to the main memory.
     let header = self.header_mut();
     // if the offset + size is the current allocated size, then we can deallocate the memory back to the main memory.
@@ -1401,6 +1407,36 @@ impl Drop for Arena {
       // access this memory anymore.
       memory.unmount();
     }
+  }
+}
+
+#[cfg(al8n_rarena_verif)]
+impl Arena {
+  /// Bounded walk of the free list (verification only).
+  pub fn verif_freelist_snapshot(&self, max: usize) -> crate::verif::FreelistSnapshot {
+    let mut out = std::vec::Vec::new();
+    let header = self.header();
+    let (_, mut next) = decode_segment_node(*header.sentinel.as_inner_ref());
+    while next != SENTINEL_SEGMENT_NODE_OFFSET {
+      if out.len() >= max || next as u64 + 8 > self.cap as u64 || next % 8 != 0 {
+        return (out, true);
+      }
+      let (size, nn) = decode_segment_node(*self.get_segment_node(next).as_inner_ref());
+      out.push((next, size, nn));
+      next = nn;
+    }
+    (out, false)
+  }
+
+  /// Observers: the header words (verification only).
+  pub fn verif_peek(&self) -> (u32, u32, u32, usize) {
+    let header = self.header();
+    (
+      header.allocated,
+      header.discarded,
+      header.min_segment_size,
+      self.refs(),
+    )
   }
 }
 
